@@ -81,6 +81,18 @@ func configs(thorough bool) []Config {
 			}
 		}
 	}
+	// a nested system of two archetypes: the register (slow: it takes each request, and looks at its store, at
+	// scheduling points of its own) and an idle archetype that ends on its own at any point
+	for _, kind := range []string{"done", "err", "assert"} {
+		for stops := 0; stops <= 1; stops++ {
+			out = append(out, Config{End: "done", Mix: "nested", Stops: stops, Nested2: kind, Skip1: true})
+		}
+	}
+	// a nested system that works by itself (commits sections of its own), and an owner that is stopped before it runs
+	for stops := 1; stops <= 2; stops++ {
+		out = append(out, Config{End: "done", Mix: "nested", Stops: stops, Ticker: true})
+	}
+	out = append(out, Config{End: "done", Mix: "nested", Stops: 1, Ticker: true, NoRun: true})
 	if strings.Contains(os.Getenv("C17_EXTRA"), "closepanic") {
 		// not part of the check: a resource whose Close panics
 		for stops := 0; stops <= 1; stops++ {
@@ -172,6 +184,7 @@ func execute(t *testing.T, cfg Config, c bubble.Chooser, strict bool) execOut {
 			return n
 		}
 		var locked bool
+		timeMoves := 0
 		// the moves that would immediately block on runStateLock while a blocked goroutine holds it are
 		// disabled: a goroutine waiting for a sync.Mutex is not durably blocked, and waiting has no effect
 		// of its own, so delaying the move until the lock is free yields the same executions
@@ -199,6 +212,12 @@ func execute(t *testing.T, cfg Config, c bubble.Chooser, strict bool) execOut {
 				// the nested archetype has reached its end label: it ends now, before anything else moves.  (Letting
 				// the outer archetype use the nested resource while the nested archetype lingers here leads into the
 				// crash of the nested-abort probe, which would kill the worker process.)
+				return false
+			}
+			if (th == w.regGate || th == w.ticker) && th != nil && w.R.State() != bubble.Running {
+				// the register waiting for its next request, and the ticker, are only scheduled while Run is inside a
+				// step that may need them (a request of the outer section, or the shutdown of the nested system in
+				// Close); the ticker's life after the owner has stopped is examined at the end of the execution
 				return false
 			}
 			for i, st := range w.stop {
@@ -229,14 +248,20 @@ func execute(t *testing.T, cfg Config, c bubble.Chooser, strict bool) execOut {
 			if w.R.State() == bubble.Running { // Run is inside a step that waits for virtual time (shutdown of the nested context)
 				offer = true
 				for _, th := range s.ParkedThreads() {
-					if th.External() && !cfg.Late {
+					if th.External() && !cfg.Late && cfg.Nested2 == "" {
 						offer = false
 					}
+				}
+				if cfg.Nested2 != "" && timeMoves >= 2 {
+					offer = false // bound: virtual time is let pass at most twice while something else could move
 				}
 			}
 			m, ok := s.Pick(c, bubble.PickOpt{Enabled: enabled, OfferTime: offer})
 			if !ok {
 				break
+			}
+			if m.Time && !m.Forced {
+				timeMoves++
 			}
 			if m.Time {
 				if m.Forced && locked && w.R.State() == bubble.Parked {
@@ -261,6 +286,13 @@ func execute(t *testing.T, cfg Config, c bubble.Chooser, strict bool) execOut {
 				continue
 			}
 			s.Grant(m.Th)
+		}
+		if w.ticker != nil && chanDeadlock == "" && predicted == "" && !res.capped {
+			// everything the schedule contained has happened: is the nested system still working by itself?
+			for i := 0; i < 3 && w.ticker.State() == bubble.Parked; i++ {
+				s.Grant(w.ticker)
+				s.Settle()
+			}
 		}
 		evs = w.log.Events()
 		// Teardown, after the verdict of this execution: stop the context and let every thread finish under
